@@ -135,10 +135,50 @@ def gen_scenario(seed, profile="general"):
             events.append([round(rng.choice((0.01, 0.3, cfg["timeout"] + 0.1, cfg["timeout"] + cfg["retry_interval"] + 0.1)), 4),
                            "close_client"])
         t = 0.0
+    if profile == "down":
+        # a leader the cached metadata still names has become unreachable for good (connections refused): every
+        # send routed to it must still complete, by failing within its attempts
+        nb = rng.choice((2, 3))
+        brokers = list(range(1, nb + 1))
+        np_ = rng.choice((2, 3, 4))
+        topics = {"t0": {p: brokers[p % nb] for p in range(np_)}}
+        victim = rng.choice(brokers)
+        cfg.update(acks=rng.choice((0, 0, 1)), max_req_attempts=rng.choice((1, 2, 3)), retry_interval=0.1,
+                   partitioner="rr", timeout=1.0, discovery=False)
+        nsend = rng.choice((np_, np_ + 2, 2 * np_))
+        sends = [dict(s=i, t=round(0.05 + 0.01 * i, 4), topic="t0", key="k", msgs=["f%d" % i], cancel=None)
+                 for i in range(nsend)]
+        stop = None
+        faults = []
+        events = [[0.01, "stop", victim]]
+        table = None
+        t = 0.2
+    if profile == "lookupfail":
+        # one batch: a send to a topic whose partition lookup keeps failing, cancelled while the lookup is pending,
+        # beside ordinary sends
+        nb = rng.choice((1, 2))
+        brokers = list(range(1, nb + 1))
+        topics = {"t0": {p: brokers[p % nb] for p in range(rng.choice((1, 2)))}}
+        k = rng.choice((2, 3, 4))
+        pos = rng.randrange(k)
+        cfg.update(batch_send=True, batch_every_n=k, batch_every_b=0, batch_every_t=None, acks=1, partitioner="rr",
+                   max_req_attempts=rng.choice((2, 3, 5)), retry_interval=rng.choice((0.1, 0.25)), discovery=False)
+        sends = []
+        for i in range(k):
+            if i == pos:
+                sends.append(dict(s=i, t=0.0, topic="nosuch", key="k", msgs=["f%d" % i],
+                                  cancel=rng.choice((0.0, 0.001, 0.03, 0.12, 0.3))))
+            else:
+                sends.append(dict(s=i, t=0.0, topic="t0", key="k", msgs=["f%d" % i], cancel=None))
+        stop = None
+        faults = []
+        events = []
+        table = None
+        t = 0.0
     return dict(seed=seed, profile=profile, brokers=brokers, topics=topics, cfg=cfg, sends=sends, stop=stop,
                 faults=faults, events=events, version_table=table,
                 latency=0.0 if profile in ("timing", "batch") else rng.choice((0.0, 0.002, 0.03)),
-                warm=profile in ("timing", "batch", "mixed") or rng.random() < 0.5)
+                warm=profile in ("timing", "batch", "mixed", "down") or rng.random() < 0.5)
 
 
 def payload_value(s, j, spec):
@@ -296,6 +336,10 @@ def run_scenario(sc):
         tr.end_calls = [str(getattr(dc.func, "sim_label", getattr(dc.func, "__qualname__", dc.func)))
                         for dc in w.clock.getDelayedCalls()]
         tr.unfired_at_horizon = sorted(s for s, r in tr.sends.items() if not r["fires"])
+        # which of them are still waiting in the producer's batch queue (as opposed to taken out of it and lost)
+        queued = list(getattr(producer, "_batch_reqs", ()) or ())
+        tr.queued_at_horizon = sorted(s for s, r in tr.sends.items()
+                                      if not r["fires"] and any(q.deferred is r["d"] for q in queued))
         if tr.stop_called is None:
             try:
                 producer.stop()
